@@ -231,6 +231,22 @@ class O%(i)d(Packet):
     __bisturi__ = %(opts)r
     x = Int(1)
     d = Ref(D%(i)d)
+class OneOf(object):
+    # a user descriptor WITHOUT sync hooks, declared before the ones that have them
+    def __init__(self, *allowed):
+        self.allowed = allowed
+    def __get__(self, instance, owner):
+        return self if instance is None else getattr(instance, self.real_field_name)
+    def __set__(self, instance, val):
+        if val not in self.allowed:
+            raise ValueError(val)
+        setattr(instance, self.real_field_name, val)
+class M%(i)d(Packet):
+    __bisturi__ = %(opts)r
+    kind = Int(1).describe(OneOf(0, 1, 2))
+    first = Int(1).describe(Auto(lambda pkt: 7))
+    length = Int(1).describe(AutoLength('body'))
+    body = Data(length)
 '''
 
 
@@ -247,6 +263,7 @@ def check_descriptors(ctx):
             p = D(a=b"xyz"); p.a = 5; trials.append((p, "length", "D%d" % i, (0, 2), 1))
             p = A(); p.w = "q"; trials.append((p, "v", "A%d" % i, (0, 1), 1))
             p = O(); p.d.a = None; trials.append((p, "length", "D%d" % i, (1, 3), 2))
+            p = getattr(L.module, "M%d" % i)(kind=1, body=b"abc"); p.body = None; trials.append((p, "length", "M%d" % i, (0, 2), 1))
             for pkt, fname, cname, off, depth in trials:
                 ctx.ev()
                 case = lambda **kw: dict(source=src, phase="pack", **kw)
